@@ -89,6 +89,7 @@ fn case_class(c: &Value) -> String {
         "hlp" => "helpers".into(),
         "res" => "fresh-stack".into(),
         "alw" => "allowed-memory".into(),
+        "clc" => "stateful-calculator".into(),
         x => x.into(),
     }
 }
@@ -426,6 +427,30 @@ pub fn run(s: &mut Sink) {
                             cases.push(json!({"k":"alw","ranges":ord.iter().map(|(o, n)| json!([o, n])).collect::<Vec<_>>(),"at":at,"w":w}));
                         }
                     }
+                }
+            }
+            // a calculator with state (k-th invocation returns base + step * k) and functions that are
+            // called from one, two and three places
+            for sites in 1..=3usize {
+                for (base, step) in [(16u64, 8u64), (64, 0), (8, 24), (256, 8)] {
+                    // main: `sites` calls of f, results added; f: r6 = r10; call g; exit; g: r0 = r10 - r6; exit
+                    let mut m: Vec<I> = vec![isa::mov64i(7, 0)];
+                    for k in 0..sites {
+                        let remaining = (sites - k - 1) * 2 + 3; // to f: past the remaining calls/adds, mov, exit
+                        m.push(isa::call_local(remaining as i32));
+                        m.push(isa::add64r(7, 0));
+                    }
+                    m.push(isa::mov64r(0, 7));
+                    m.push(isa::EXIT);
+                    // f
+                    m.push(isa::mov64r(6, 10));
+                    m.push(isa::call_local(1));
+                    m.push(isa::EXIT);
+                    // g
+                    m.push(isa::mov64r(0, 10));
+                    m.push(isa::sub64r(0, 6));
+                    m.push(isa::EXIT);
+                    cases.push(json!({"k":"clc","p":hex(&isa::enc(&m)),"base":base,"step":step}));
                 }
             }
             s.count("allowed_memory_cases", cases.len() as u64);
